@@ -20,6 +20,10 @@ class ProcessExit(BaseException):
     """os._exit() was called: the real process would be gone."""
 
 
+class Unscheduled(Exception):
+    """a library thread escaped the cooperative scheduler (harness limitation, never a verdict)."""
+
+
 class LThread:
     def __init__(self, sched, name, target, args=(), kind="thread"):
         self.sched, self.name, self.target, self.args, self.kind = sched, name, target, args, kind
@@ -142,6 +146,15 @@ class Sched:
             h(t)
 
     # ---- controller (runs in the harness thread)
+    def _wait_ctl(self, t):
+        """wait until the thread that was handed the baton parks again (or ends).  A thread that blocks for real — on a
+        synchronisation primitive this shim does not stand in for — would keep the baton forever: give up after a minute of
+        real time instead of hanging the check."""
+        if not self.ctl.acquire(timeout=60):
+            self.aborting = True
+            raise Unscheduled("thread %s has been running for 60 s of real time without reaching a scheduling point (it blocks on a "
+                              "primitive the scheduler shim does not control, or loops)" % t.name)
+
     def enabled(self):
         out = []
         for t in self.threads.values():
@@ -173,7 +186,7 @@ class Sched:
                     self.events = []
                     op = t.op
                     t.baton.release()
-                    self.ctl.acquire()
+                    self._wait_ctl(t)
                     chunk = {"tid": t.name, "op": op, "timeout": bool(timed is t), "enabled": sorted(x.name for x in en + due), "events": self.events,
                              "clock": self.clock, "next": None if t.done else t.op, "done": t.done}
                     if self.snapshot is not None:
@@ -196,7 +209,7 @@ class Sched:
             self.events = []
             op = t.op
             t.baton.release()
-            self.ctl.acquire()
+            self._wait_ctl(t)
             chunk = {"tid": t.name, "op": op, "timeout": bool(timed is t), "enabled": sorted(names), "events": self.events,
                      "clock": self.clock, "next": None if t.done else t.op, "done": t.done}
             if self.snapshot is not None:
@@ -281,9 +294,17 @@ class Lock:
         if self.reentrant and self.owner is me:
             self.depth += 1
             return True
-        me.meta["want_lock"] = self
-        SCHED.park(("lock", self.label or "lock"), cond=lambda: self.owner is None)
-        me.meta["want_lock"] = None
+        if not blocking:
+            SCHED.park(("try-lock", self.label or "lock"))
+            if self.owner is not None:
+                return False
+        else:
+            me.meta["want_lock"] = self
+            timed_out = SCHED.park(("lock", self.label or "lock"), cond=lambda: self.owner is None,
+                                   deadline=None if timeout is None or timeout < 0 else round(SCHED.clock + timeout, 6))
+            me.meta["want_lock"] = None
+            if timed_out and self.owner is not None:
+                return False
         self.owner, self.depth = me, 1
         me.meta["locks"] = me.meta.get("locks", 0) + 1
         return True
@@ -584,7 +605,13 @@ class Socket:
                 self.nwrites += 1
                 SCHED.event("send-timeout", SCHED.me().name)
                 raise TimeoutError("timed out")
-            SCHED.park(("send-wait",), cond=lambda: False, deadline=round(SCHED.clock + self.slow_delay, 6))
+            # the thread is in the middle of its write for that long: another thread writing meanwhile interleaves with it
+            me = SCHED.me().name
+            self.pending_writers.append(me)
+            try:
+                SCHED.park(("send-wait",), cond=lambda: False, deadline=round(SCHED.clock + self.slow_delay, 6))
+            finally:
+                self.pending_writers.remove(me)
 
     def _announce(self, data):
         """park at the write; a write performed while another thread has announced its own (and, in reality, may be
@@ -698,6 +725,22 @@ def install(sched, sock, cpu=8):
             pass
     S.traceback = _TB
     SUBM.threading = ThreadingShim
+    # whatever else the two modules import from threading / queue / concurrent.futures under whatever name (`from threading
+    # import Lock`, `import threading`, `from queue import Queue, Empty` …) is replaced by its stand-in as well: a real
+    # primitive under the cooperative scheduler would block the only running thread for good
+    import queue as _queue
+    import concurrent.futures as _cf
+    real = [(_threading.Lock, Lock), (_threading.RLock, RLock), (_threading.Thread, Thread), (_threading.Event, Event),
+            (_threading, ThreadingShim), (_queue, QueueShim), (_queue.Queue, Queue), (_queue.Empty, Empty),
+            (_cf.ThreadPoolExecutor, ThreadPoolExecutor)]
+    extra = []
+    for mod in (S, SUBM):
+        for k, v in list(vars(mod).items()):
+            for r, shim_obj in real:
+                if v is r:
+                    extra.append((mod, k, v))
+                    setattr(mod, k, shim_obj)
+    saved["extra"] = extra
     return saved
 
 
@@ -708,4 +751,6 @@ def uninstall(saved):
     for k, v in saved["S"].items():
         setattr(S, k, v)
     SUBM.threading = saved["SUBM"]["threading"]
+    for mod, k, v in saved.get("extra", []):
+        setattr(mod, k, v)
     SCHED = None
